@@ -38,7 +38,7 @@ ASSUMPTIONS = [
   "body_pos/body_quat are edited only on bodies that are not welded to the world (the docstring calls static bodies unsafe: static geom poses are frozen at make_data)",
   "no mocap bodies, no flex, contacts irrelevant (no collision is run)",
 ]
-BUDGET = {"quick": dict(examples=320, seconds=150, workers=16), "thorough": dict(examples=6000, seconds=1500, workers=16)}
+BUDGET = {"quick": dict(examples=320, seconds=420, workers=16), "thorough": dict(examples=6000, seconds=1500, workers=16)}
 
 _FIXED = ["body_subtreemass"]
 _ZERO = ["tendon_length0", "eq_data", "dof_invweight0", "body_invweight0", "tendon_invweight0", "cam_pos0", "cam_poscom0", "cam_mat0", "light_pos0", "light_poscom0",
